@@ -50,6 +50,8 @@ func init() {
 			{ID: "R18m", Floor: 3, Doc: "extracted files are created truncating (= R19f)", Run: ruleR19f},
 			{ID: "R18o", Floor: 1, Doc: "extraction does not skip silently: extractDir itself never returns `0, nil` (the only tolerated skip is the per-entry 'data for entry not found' of the closure); a tree that was packed is extracted whole or the command fails", Run: ruleR18o},
 			{ID: "R18p", Floor: 1, Doc: "car extract reads what car create wrote: no command lowers the section-size limit for itself (= R19i)", Run: ruleR19i},
+			{ID: "R18q", Floor: 1, Doc: "car extract from a pipe fails when the stream is damaged: the stdin loader ends cleanly only at io.EOF (= R02l)", Run: ruleR02l},
+			{ID: "R18r", Floor: 2, Doc: "an empty file is a section exactly as long as its CID: the lookups car extract relies on accept it (= R01r)", Run: ruleR01r},
 		},
 	})
 }
@@ -229,7 +231,7 @@ func ruleR18b(c *Ctx, r *Report) {
 			// blockstore.WriteAsCarV1 is a variable holding carv2.WriteAsCarV1: a call through it is dynamic
 			n := 0
 			eachInstr(fn, func(in ssa.Instruction) {
-				if ci, ok := in.(*ssa.Call); ok && ci.Common().StaticCallee() == nil && !ci.Common().IsInvoke() {
+				if ci, ok := in.(*ssa.Call); ok && staticTarget(ci.Common()) == nil && !ci.Common().IsInvoke() {
 					if isGlobalLoad(canon(ci.Common().Value), pkgBS, "WriteAsCarV1") {
 						n++
 						if k, ok := constBool(ci.Call.Args[0]); !ok || !k {
@@ -773,4 +775,30 @@ func ruleR18o(c *Ctx, r *Report) {
 		}
 	}
 	r.Check(bad == "", key, c.Pos(fn.Pos()), "extractDir has no silent-skip return", bad)
+	// its closures: `0, nil` only where the loader said NotFound (the one tolerated skip: a partial DAG)
+	n := 0
+	for _, g := range withAnon(fn) {
+		if g == fn {
+			continue
+		}
+		nf := condEdges(g, func(base ssa.Value) (bool, bool) {
+			if cl, _ := callOf(base); cl != nil && cl.Common().IsInvoke() && cl.Common().Method.Name() == "NotFound" {
+				return true, true
+			}
+			return false, false
+		})
+		rs := reach(g, nil, edgeSet(nf))
+		for _, ret := range returnsOf(g) {
+			if len(ret.Results) != 2 {
+				continue
+			}
+			if k, ok := constInt(retResult(ret, 0)); ok && k == 0 && resultIsNilConst(ret, 1) {
+				n++
+				key2 := fmt.Sprintf("skip-only-when-not-found@%s#%d", fnKey(g), n)
+				r.Check(!rs[ret.Block()], key2, c.Pos(ret.Pos()), "this `0, nil` is behind a NotFound() answer of the loader",
+					"an entry can be skipped (`0, nil`) for a reason other than its data being absent from the archive: what was packed is not extracted, and the command reports success")
+			}
+		}
+	}
+	r.Count("tolerated skips in the extraction closures", n)
 }
